@@ -58,6 +58,53 @@ func c09InterpCase(w *mon.Worker, r *rand.Rand) mon.Result {
 	return res
 }
 
+// Prefix-function family: a one-argument function is a prefix operator with a precedence of its own; a traversal
+// written right after its bracketed argument binds to that ARGUMENT when the function binds looser (del, 40, below
+// `.k` 45 and `[n]` 50) or equally (join / has / test / contains, 50, next to `[n]` 50; ties group to the right):
+// `del(.a).b` is `del((.a).b)`. Oracle: both spellings give the same results on the document.
+func c09PrefixFnCase(w *mon.Worker, r *rand.Rand) mon.Result {
+	doc := "{\"a\": {\"b\": 1, \"c\": [5, 6], \"d\": {\"e\": 2}}, \"s\": \"p-q\", \"l\": [\"x\", \"y\"], \"m\": [[1, 2], [3]]}\n"
+	pick := func(p []string) string { return p[r.IntN(len(p))] }
+	var min, full string
+	switch r.IntN(6) {
+	case 0:
+		x, k := pick([]string{".a", ".a.d", ".m"}), pick([]string{".b", ".c", ".e", "[0]", "[1]", ".c[0]"})
+		min, full = fmt.Sprintf("del(%s)%s", x, k), fmt.Sprintf("del((%s)%s)", x, k)
+	case 1:
+		i := r.IntN(2)
+		min, full = fmt.Sprintf(`.l | join(["-", "+"])[%d]`, i), fmt.Sprintf(`.l | join((["-", "+"])[%d])`, i)
+	case 2:
+		i := r.IntN(2)
+		min, full = fmt.Sprintf(`has(["a", "zz"])[%d]`, i), fmt.Sprintf(`has((["a", "zz"])[%d])`, i)
+	case 3:
+		i := r.IntN(2)
+		min, full = fmt.Sprintf(`.s | test(["q", "z"])[%d]`, i), fmt.Sprintf(`.s | test((["q", "z"])[%d])`, i)
+	case 4:
+		i := r.IntN(2)
+		min, full = fmt.Sprintf(`.l | contains([["x"], ["q"]])[%d]`, i), fmt.Sprintf(`.l | contains(([["x"], ["q"]])[%d])`, i)
+	default:
+		x := pick([]string{".a", ".m"})
+		min, full = fmt.Sprintf("del(%s)[0] | length", x), fmt.Sprintf("del((%s)[0]) | length", x)
+	}
+	res := mon.Result{Tags: []string{"family:prefix-function-then-traversal"}, Nontrivial: true}
+	res.Case = map[string]any{"minimal": min, "full": full, "doc": doc}
+	res.Sig = "prefixfn|" + min
+	o1, e1, p1 := yqx.Eval(min, doc, "yaml", "json")
+	o2, e2, p2 := yqx.Eval(full, doc, "yaml", "json")
+	res.Evals += 2
+	if p1 != nil || p2 != nil {
+		res.Verdict, res.Detail = mon.Violated, fmt.Sprintf("panic while evaluating `%s` / `%s`: %v %v", min, full, p1, p2)
+		return res
+	}
+	if (e1 != nil) != (e2 != nil) || (e1 == nil && o1 != o2) {
+		res.Verdict = mon.Violated
+		res.Detail = fmt.Sprintf("`%s` and `%s` differ: the traversal after the bracket no longer binds to the argument as the precedence table says\n first:  %s (err=%v)\n second: %s (err=%v)", min, full, clipStr(o1, 300), e1, clipStr(o2, 300), e2)
+		return res
+	}
+	res.Verdict, res.Detail = mon.Held, "same results"
+	return res
+}
+
 func c09ArgCase(w *mon.Worker, r *rand.Rand) mon.Result {
 	doc := "{\"s\": \"cat\", \"t\": \"banana\", \"a\": {\"x\": 0, \"y\": 0, \"z\": [1, 2]}, \"b\": {\"x\": 5}}\n"
 	strs := []string{`"c"`, `"a"`, `"an"`, `"t"`, `"b"`, `"r"`, `""`, `"zz"`, `.s`, `.t`}
